@@ -95,19 +95,17 @@ theorem stage_touches_exactly_real (grow : String → Meth → Nat) (m : Meth) (
 /-- every array that has a stepper is visited exactly once per stage call:
 the destination order is a permutation of the integrator's steppers -/
 theorem dest_order_perm (cfg : Cfg) : (destOrder cfg).Perm cfg.arrays := by
-  have hins : ∀ (a : ArrayCfg) (l : List ArrayCfg), (insertByName a l).Perm (a :: l) := by
-    intro a l
-    induction l with
-    | nil => exact List.Perm.refl _
-    | cons b bs ih =>
-      unfold insertByName
-      split
-      · exact (List.Perm.cons b ih).trans (List.Perm.swap a b bs)
-      · exact List.Perm.refl _
   unfold destOrder
   induction cfg.arrays with
   | nil => exact List.Perm.refl _
-  | cons a as ih => exact (hins a _).trans (List.Perm.cons a ih)
+  | cons a as ih => exact (insertByName_perm a _).trans (List.Perm.cons a ih)
+
+/-- … and the visits happen in sorted name order (`sorted(steppers.keys())`) -/
+theorem dest_order_sorted (cfg : Cfg) : (destOrder cfg).Pairwise NameLe := by
+  unfold destOrder
+  induction cfg.arrays with
+  | nil => exact List.Pairwise.nil
+  | cons a as ih => exact insertByName_sorted a _ ih
 
 /-! ## the time a stage sees -/
 
@@ -206,24 +204,6 @@ theorem callback_once_per_stage (A : Arith τ) (cfg : Cfg) (prog : Program) (t d
 
 /-! ## the shipped integrators (table regenerated from the source) -/
 
-/-- stage / post-stage statements of a program, in order -/
-def stagePosts (p : Program) : List Cmd :=
-  p.filter (fun c => match c with
-    | .stage _ => true
-    | .doPostStage _ _ => true
-    | _ => false)
-
-/-- `stage k, do_post_stage(e, k), stage k+1, do_post_stage(e', k+1), …`, the
-last `stage_dt` being the whole `dt` -/
-def wellStagedFrom : Nat → List Cmd → Bool
-  | _, [] => true
-  | k, .stage j :: .doPostStage e j' :: rest =>
-    j == k && j' == k && (if rest.isEmpty then e == Expr.dt else true) &&
-      wellStagedFrom (k + 1) rest
-  | _, _ => false
-
-def wellStaged (p : Program) : Bool := wellStagedFrom 1 (stagePosts p)
-
 /-- Every `one_timestep` in the tree calls its stages in order 1..n, reports
 each with exactly one `do_post_stage(_, k)` before the next stage, and ends
 the step at `t + dt`.  (Re-checked against the regenerated table on every run;
@@ -231,6 +211,38 @@ an integrator that skips or duplicates a post-stage call breaks this.) -/
 theorem shipped_programs_well_staged :
     ∀ x ∈ Gen.Timesteps.programs, wellStaged x.2.2 = true := by
   decide
+
+/-- For a well-staged program (all shipped ones are, see above) with a callback
+set: the callback fires exactly once per stage, with stage numbers
+`1, 2, …, n` in this order, always with the step's `dt`, and the last call
+reports time `t + dt`. -/
+theorem well_staged_callbacks (A : Arith τ) (cfg : Cfg) (prog : Program) (t dt : τ)
+    (s : TState τ) (hs : s.events = []) (hcb : cfg.hasCallback = true)
+    (hw : wellStaged prog = true) :
+    let cbs := callbacksOf (step A staticWorld cfg prog t dt s).events
+    cbs.map (·.2.2) = List.range' 1 cbs.length ∧
+    (∀ c ∈ cbs, c.2.1 = dt) ∧
+    (stagePosts prog ≠ [] → (cbs.map (·.1)).getLast? = some (A.add t dt)) := by
+  intro cbs
+  have hc : cbs = (posts prog).map (fun x => (A.add t (x.1.eval A t dt), dt, x.2)) := by
+    have := callback_once_per_stage A cfg prog t dt s hs
+    simpa [hcb] using this
+  obtain ⟨h1, h2⟩ := wellStagedFrom_posts 1 (stagePosts prog) hw
+  rw [posts_stagePosts] at h1 h2
+  refine ⟨?_, ?_, ?_⟩
+  · rw [hc, List.map_map, List.length_map]
+    exact h1
+  · intro c hcm
+    rw [hc] at hcm
+    obtain ⟨x, _, rfl⟩ := List.mem_map.mp hcm
+    rfl
+  · intro hne
+    have h3 := h2 hne
+    rw [hc, List.map_map]
+    have : ((fun x : τ × τ × Nat => x.1) ∘ fun x : Expr × Nat => (A.add t (x.1.eval A t dt), dt, x.2)) =
+        (fun e : Expr => A.add t (e.eval A t dt)) ∘ (fun x : Expr × Nat => x.1) := rfl
+    rw [this, ← List.map_map, List.getLast?_map, h3]
+    rfl
 
 /-- every shipped program only evaluates sets 0 or 1 and its last statement
 group leaves the registers at `t + dt` -/
